@@ -505,6 +505,16 @@ func (fr *Frame) convert(ins *ssa.Convert) {
 	u8 := types.Typ[types.Uint8]
 	if isStringT(dt) && isSliceT(st) || isSliceT(dt) && isStringT(st) {
 		n := x.L[1]
+		if fr.vc.specDepth > 0 {
+			// inside a contract expression nothing is ever written, so the copy can share the
+			// bytes of its source: every read of it gives the same value as a real copy would
+			if isStringT(dt) {
+				fr.set(ins, &Val{T: dt, L: []string{x.L[0], n}})
+			} else {
+				fr.set(ins, &Val{T: dt, L: []string{x.L[0], n, n}})
+			}
+			return
+		}
 		base := fr.alloc(u8, n)
 		fr.copyRange(u8, base, x.L[0], n)
 		fr.noteAlloc(n)
